@@ -27,7 +27,8 @@
      behaviour with the defects found by C14 / C13 repaired ([true]): custom_reset also clears ds_first,
      block_align, user_frame_offset / user_frame_end (and the dead per-build fields align, id_end, vt_hash,
      buffer_mark, buffer_flags, identifier); set_max_level clamps limit_level downwards instead of raising it
-     beyond the allocated frames; create_cached_vtable returns 0 instead of -1 when the vb allocation fails.
+     beyond the allocated frames; create_cached_vtable returns 0 instead of -1 when the vb allocation fails; end_buffer
+     returns 0 for a null root instead of ending whatever frame is open.
    Sizes are assumed to stay below 2^31 where the C code computes in uoffset_t (the wraps that the C code itself
    tests for, in emit_front / emit_back / vector_count_add, are transcribed). *)
 From Flatcc.Common Require Export Wrap.
@@ -105,7 +106,8 @@ Definition T_empty := 0. Definition T_buffer := 1. Definition T_struct := 2. Def
 Definition T_vector := 4. Definition T_offset_vector := 5. Definition T_string := 6. Definition T_union_vector := 7.
 
 Record vdesc := mkvd { vd_vt : list Z; vd_nest : Z; vd_ref : Z; vd_vb_start : Z }.
-Record event := mkev { ev_ref : Z; ev_kind : Z; ev_nest : Z; ev_bytes : list Z }.
+(* ev_tag: for a vtable emit the vtable itself (the emitted bytes may carry alignment padding); [] otherwise *)
+Record event := mkev { ev_ref : Z; ev_kind : Z; ev_nest : Z; ev_bytes : list Z; ev_tag : list Z }.
 Definition EK_data := 0. Definition EK_vtable := 1.
 
 Record frame := mkframe {
@@ -315,12 +317,12 @@ Definition emitter_emit (ref len : Z) (s : bstate) : bstate :=
   set_e_cap (zmax (e_cap s2) (PAGE_SIZE * (1 + pages_side (e_front s2) + pages_side (e_back s2)))) s2.
 
 (* B->emit(B->emit_context, iov, count, ref, len); true = returned 0 *)
-Definition emit_call (ref : Z) (kind : Z) (bytes : list Z) : M bool :=
+Definition emit_call (ref : Z) (kind : Z) (bytes tag : list Z) : M bool :=
   fun s =>
     if fe s =? 0 then Ret false (if fe_rep s then s else set_fe (-1) s) []
     else
       let s1 := if 0 <? fe s then set_fe (fe s - 1) s else s in
-      Ret true (emitter_emit ref (zlen bytes) s1) [mkev ref kind (nest_id s) bytes].
+      Ret true (emitter_emit ref (zlen bytes) s1) [mkev ref kind (nest_id s) bytes tag].
 
 (* flatcc_emitter_reset *)
 Fixpoint drop_pages (fuel : nat) (cap avg : Z) : Z :=
@@ -439,21 +441,23 @@ Definition back_pad (a : Z) : M Z :=
 (* emit_front: the reference, 0 on failure (range tested before the subtraction) *)
 Definition S32_MAX : Z := 2147483647.
 Definition S32_MIN : Z := -2147483648.
-Definition emit_front (kind : Z) (bytes : list Z) : M Z :=
+Definition emit_front_tag (kind : Z) (bytes tag : list Z) : M Z :=
   es <- get emit_start ;;
   let len := zlen bytes in
   if (len =? 0) || (S32_MAX <? len) || (es - len <? S32_MIN) then ret 0
   else let ref := es - len in
-       ok <- emit_call ref kind bytes ;;
+       ok <- emit_call ref kind bytes tag ;;
        if ok then upd (set_emit_start ref) ;;; ret ref else ret 0.
+Definition emit_front (kind : Z) (bytes : list Z) : M Z := emit_front_tag kind bytes [].
 
 (* emit_back: reference + 1, 0 on failure; emit_end is advanced once the range test has passed *)
-Definition emit_back (kind : Z) (bytes : list Z) : M Z :=
+Definition emit_back_tag (kind : Z) (bytes tag : list Z) : M Z :=
   ref <- get emit_end ;;
   let len := zlen bytes in
   if (ref <? 0) || (S32_MAX - ref <? len) then ret 0
   else upd (set_emit_end (ref + len)) ;;;
-       ok <- emit_call ref kind bytes ;; if ok then ret (ref + 1) else ret 0.
+       ok <- emit_call ref kind bytes tag ;; if ok then ret (ref + 1) else ret 0.
+Definition emit_back (kind : Z) (bytes : list Z) : M Z := emit_back_tag kind bytes [].
 
 (* align_buffer_end: (success, align) *)
 Definition align_buffer_end (a balign : Z) (is_nested : bool) : M (bool * Z) :=
@@ -526,8 +530,11 @@ Definition create_offset_vector_direct (data : list Z) (count : Z) : M Z :=
 (* flatcc_builder_create_vtable (little endian host) *)
 Definition create_vtable (vt : list Z) : M Z :=
   nid <- get nest_id ;; dc <- get disable_vt_clustering ;;
-  if (nid =? 0) && (dc =? 0) then emit_back EK_vtable vt
-  else r <- emit_front EK_vtable vt ;; if r =? 0 then ret 0 else ret (r + 1).
+  if (nid =? 0) && (dc =? 0) then emit_back_tag EK_vtable vt vt
+  else
+    (* keep the vtable aligned also after odd sized structs *)
+    p <- front_pad (zlen vt) VOFFSET_SIZE ;;
+    r <- emit_front_tag EK_vtable (vt ++ zeros p) vt ;; if r =? 0 then ret 0 else ret (r + 1).
 
 (* flatcc_builder_flush_vtable_cache *)
 Definition flush_vtable_cache : M unit :=
@@ -618,7 +625,9 @@ Definition start_buffer (ident balign flags : Z) : M Z :=
   upd (set_buffer_mark es) ;;; upd (set_nest_id nc) ;;; upd (set_nest_count (u32 (nc + 1))) ;;;
   upd (set_identifier ident) ;;; ret 0.
 
-Definition end_buffer (root : Z) : M Z :=
+Definition end_buffer (fixed : bool) (root : Z) : M Z :=
+  (* repaired: a null root is the failure value of the call that built the root object *)
+  if fixed && (root =? 0) then ret 0 else
   expect_type T_buffer ;;;
   bf <- get buffer_flags ;; nid <- get nest_id ;; bb <- get block_align ;;
   let flags := Z.lor (Z.land bf F_with_size) (if nid =? 0 then 0 else F_is_nested) in
@@ -912,7 +921,7 @@ Inductive op :=
 Definition step (fixed : bool) (o : op) : M Z :=
   match o with
   | OStartBuffer i b f => start_buffer i b f
-  | OEndBuffer r => end_buffer r
+  | OEndBuffer r => end_buffer fixed r
   | OCreateBuffer i b r a f => create_buffer i b r a f
   | OStartStruct a d => start_struct a d
   | OEndStruct => end_struct
